@@ -4,5 +4,6 @@ CONSTANTS
   DEV_NoInvalidateOnPredictionTR = FALSE
   DEV_NoReindexOnNetworkTR = FALSE
   DEV_NoInvalidateCycle = TRUE
+  DEV_MergeRebuildOnlyIfAll = FALSE
 VIEW View
 INVARIANT InvFresh
